@@ -1247,6 +1247,8 @@ def _x_cross(args, kw):
 
 
 def _x_pad(args, kw):
+    if not args and "array" in kw:
+        args = [kw["array"]]
     a = lift(args[0])
     pw = kw.get("pad_width", args[1] if len(args) > 1 else None)
     mode = kw.get("mode", args[2] if len(args) > 2 else "constant")
@@ -1254,6 +1256,8 @@ def _x_pad(args, kw):
     if len(pw) != a.ndim:
         raise AnalysisError(f"np.pad: pad_width rank {len(pw)} for array of rank {a.ndim}")
     ne = len(a.shape)
+    if not a.sp and not a.trail:
+        return _pad_concrete(a, pw, mode, kw.get("constant_values", 0))
     if any(p != (0, 0) for p in pw[:ne]) or a.trail:
         raise AnalysisError("np.pad on an explicit axis")
     sp = []
@@ -1265,6 +1269,50 @@ def _x_pad(args, kw):
     if not tags:
         return a
     return NdArr(a.shape, [_tag_pad(v, tuple(tags)) for v in a.data], tuple(sp))
+
+
+def _pad_concrete(a, pw, mode, cval=0):
+    """np.pad of a concrete array, axis by axis (numpy pads the axes in order, so corners are filled from the
+    already padded array)."""
+    if isinstance(cval, (list, tuple, NdArr)):
+        raise AnalysisError("np.pad: per-axis constant_values")
+    out = a
+    for axis, (b, e) in enumerate(pw):
+        if (b, e) == (0, 0):
+            continue
+        n = out.shape[axis]
+
+        def src(i, _n=n):
+            # index into the unpadded axis for padded position i - b
+            j = i - b
+            if 0 <= j < _n:
+                return j
+            if mode == "constant":
+                return None
+            if mode == "edge":
+                return min(max(j, 0), _n - 1)
+            if mode == "wrap":
+                return j % _n
+            if mode in ("reflect", "symmetric"):
+                if _n == 1:
+                    return 0
+                period = 2 * (_n - 1) if mode == "reflect" else 2 * _n
+                j %= period
+                if mode == "reflect":
+                    return j if j < _n else period - j
+                return j if j < _n else period - 1 - j
+            raise AnalysisError(f"np.pad mode {mode!r}")
+
+        new_shape = out.shape[:axis] + (n + b + e,) + out.shape[axis + 1 :]
+        data = []
+        for ix in itertools.product(*[range(x) for x in new_shape]):
+            j = src(ix[axis])
+            if j is None:
+                data.append(cval)
+            else:
+                data.append(out.data[_flat_index(out.shape, ix[:axis] + (j,) + ix[axis + 1 :])])
+        out = NdArr(new_shape, data)
+    return out
 
 
 def _tag_pad(v, tags):
@@ -1480,6 +1528,11 @@ def _x_norm(args, kw):
     from .poly import apply_fn
 
     a = lift(args[0])
+    if kw.get("axis") is not None and len(args) == 1 and kw.get("ord") is None:
+        sq = a.map(lambda v: to_rat(v) * to_rat(v))
+        red = reduce_axes(_INTERP, sq, kw["axis"], "sum")
+        rt = lambda v: apply_fn("sqrt", to_rat(v))
+        return red.map(rt) if isinstance(red, NdArr) else rt(red)
     if a.sp or len(args) > 1 or kw.get("axis") is not None or kw.get("ord") is not None:
         raise AnalysisError("norm model: concrete array, default ord, no axis")
     tot = Rat.const(0)
@@ -1498,9 +1551,25 @@ def _x_norm(args, kw):
     return apply_fn("sqrt", tot)
 
 
+def _x_diff(args, kw):
+    """np.diff along one explicit axis of a concrete-extent axis (n = 1)."""
+    a = lift(args[0])
+    axis = kw.get("axis", args[2] if len(args) > 2 else -1)
+    if kw.get("n", args[1] if len(args) > 1 else 1) != 1:
+        raise AnalysisError("diff model: n = 1")
+    ax = int(_as_int(axis)) % a.ndim
+    if ax >= len(a.shape):
+        raise AnalysisError("diff over a spatial axis")
+    n = a.shape[ax]
+    hi = getitem(a, tuple([slice(None)] * ax + [slice(1, n)]))
+    lo = getitem(a, tuple([slice(None)] * ax + [slice(0, n - 1)]))
+    return elementwise(lambda x, y: to_rat(x) - to_rat(y), hi, lo)
+
+
 ARR_EXT.update(
     {
         "np.flip": _x_flip,
+        "np.diff": _x_diff,
         "np.linalg.norm": _x_norm,
         "np.matmul": lambda args, kw: matmul(lift(args[0]), lift(args[1])),
         "np.meshgrid": _x_meshgrid,
